@@ -87,7 +87,7 @@ def build(rng, case):
         pos = np.round(pos, 3)
     kw = dict(atom_types=[int(x) for x in rng.integers(0, nt, n)], positions=pos, cell=cell, atom_type_elements=els,
               atom_type_masses=[masses[e] for e in els], atom_type_labels=["%s_%d" % (e, t) if rng.integers(2) else e for t, e in enumerate(els)],
-              charges=np.round(rng.uniform(-2, 2, n) * (1 if not many else 12), int(rng.integers(2, 9))), groups=[int(x) for x in rng.integers(0, 4 if not many else 25, n)])
+              charges=np.round(rng.uniform(-2, 2, n) * (1 if not many else 12), int(rng.integers(2, 9))), groups=[int(x) for x in rng.integers(0 if rng.integers(5) else -1, 4 if not many else 25, n)])    # one structure in five has atoms of group -1 (LAMMPS molecule id 0: "no molecule")
     if rng.integers(10) == 0:
         kw["atom_type_labels"][int(rng.integers(nt))] = ""        # a type the user left unlabelled
         case["_empty_label"] = True
@@ -328,6 +328,15 @@ def run_case(case, ctx):
     compare_loaded(b, a, style, fail)
     st.count("files_read_back")
     # the same file as another program or platform would hand it over: CRLF line ends, tabs between the columns, trailing blanks
+    try:
+        from vmon.oracle.util import Pipe
+        from mofun import Atoms as _A
+        compare_loaded(_A.load_lmpdat(Pipe(t1), atom_format=style), a, style, lambda m, c: fail("file read from a stream that cannot seek: %s" % m, c), what="read")
+        st.count("reads_from_a_stream_that_cannot_seek")
+    except Exception as e:
+        if type(e).__name__ == "PostBroken":
+            raise
+        fail("reading the file from a stream that cannot seek raised %s: %s" % (type(e).__name__, str(e)[:120]), "pipe_raises")
     for vname, vt in (("CRLF line ends", t1.replace("\n", "\r\n")), ("tabs between columns", "\n".join((l.replace("   ", "\t").replace("  ", "\t") if (l[:1].isspace() or l[:1].isdigit()) and "#" not in l else l) for l in t1.split("\n"))),
                       ("trailing blanks", "\n".join(l + "  " if l.strip() else l for l in t1.split("\n")))):
         try:
